@@ -231,3 +231,7 @@ LEVEL = 'proof'
 TRUSTED = ['A-IEEE', 'A-FMT', 'A-REAL (only through the proved lemma)']
 ASSUMPTIONS = TRUSTED
 EXPLANATION = 'pure integer planners verified against spec functions (ceil_div, range_header) for all inputs'
+
+
+from .b_legacy import LEGACY_C14  # noqa: E402
+ROOTS = ROOTS + LEGACY_C14
